@@ -181,9 +181,11 @@ Record inv_struct (s : sys) : Prop := {
 Definition lim_ok (s : sys) : Prop := forall c, 0 <= c_limit (s_cn s c) -> c_cur (s_cn s c) <= c_limit (s_cn s c).
 Definition fullc (s : sys) (c : nat) : Prop := 0 <= c_limit (s_cn s c) /\ c_cur (s_cn s c) = c_limit (s_cn s c).
 (* every staged variable (but [x]) uses a full constraint, or one of the constraints [P] still to be revisited *)
+Definition pend (P : list nat) (s : sys) (u : nat) : Prop :=
+  exists c, In c P /\ on s u c /\ 0 <= c_limit (s_cn s c).
 Definition just (P : list nat) (x : option nat) (s : sys) : Prop :=
   forall u, Some u <> x -> alive s u -> stagedv s u = true ->
-    (exists c, on s u c /\ fullc s c) \/ (exists c, In c P /\ on s u c).
+    (exists c, on s u c /\ fullc s c) \/ pend P s u.
 Definition inv (s : sys) : Prop := inv_struct s /\ lim_ok s /\ just [] None s.
 
 Lemma weight_on : forall s v c, ~ on s v c -> weight s v c = 0%Q.
@@ -243,7 +245,8 @@ Proof.
   - intro c. rewrite enable_var_cn by assumption. rewrite count_en_w.
     rewrite (count_ext _ (fun v => weight s v c)) by (intros; apply enable_var_weight).
     destruct (lookup c (v_elems (s_var s u))) as [w|] eqn:El; [|apply (i_cur s I)].
-    cbn [cn_enable c_en c_cur]. rewrite count_cons. rewrite (i_cur s I c), count_en_w. unfold weight at 1. rewrite El. lia.
+    assert (Hw : weight s u c = w) by (unfold weight; now rewrite El).
+    cbn [cn_enable c_en c_cur]. rewrite count_cons. cbv beta. rewrite Hw, (i_cur s I c), count_en_w. lia.
   - intro v. rewrite enable_var_var. destruct (Nat.eqb v u); [|apply (i_sign s I)]. cbn. split; [apply (i_sign s I u)|lia].
   - intro v. rewrite Hst, Hen. destruct (Nat.eqb v u); [discriminate|apply (i_st_pen s I)].
   - intros v Hv. rewrite Hal in Hv. rewrite enable_var_elems, Hst. destruct (Nat.eqb v u) eqn:E.
@@ -253,3 +256,1055 @@ Proof.
     + apply Nat.eqb_eq in E. subst v. cbn in Hv. apply (i_want s I) in Hv. destruct Hv as [_ Hv]. congruence.
     + apply (i_want s I). exact Hv.
 Qed.
+
+(** ** disable_var *)
+Lemma disable_var_var : forall s u v, s_var (disable_var s u) v =
+  if Nat.eqb v u then mkVar (v_alive (s_var s u)) 0 0 (v_want (s_var s u)) (v_elems (s_var s u)) else s_var s v.
+Proof. reflexivity. Qed.
+Lemma disable_var_cn : forall s u c, NoDup (map fst (v_elems (s_var s u))) -> s_cn (disable_var s u) c =
+  match lookup c (v_elems (s_var s u)) with Some w => cn_disable u w (s_cn s c) | None => s_cn s c end.
+Proof. intros. unfold disable_var. cbn [s_cn]. apply apply_elems_spec. assumption. Qed.
+Lemma disable_var_elems : forall s u v, v_elems (s_var (disable_var s u) v) = v_elems (s_var s v).
+Proof. intros. rewrite disable_var_var. destruct (Nat.eqb v u) eqn:E; [apply Nat.eqb_eq in E; subst|]; reflexivity. Qed.
+Lemma disable_var_alive : forall s u v, v_alive (s_var (disable_var s u) v) = v_alive (s_var s v).
+Proof. intros. rewrite disable_var_var. destruct (Nat.eqb v u) eqn:E; [apply Nat.eqb_eq in E; subst|]; reflexivity. Qed.
+Lemma disable_var_on : forall s u v c, on (disable_var s u) v c <-> on s v c.
+Proof. intros. unfold on. rewrite disable_var_elems. tauto. Qed.
+Lemma disable_var_weight : forall s u v c, weight (disable_var s u) v c = weight s v c.
+Proof. intros. unfold weight. rewrite disable_var_elems. reflexivity. Qed.
+
+Lemma disable_var_struct : forall s u, inv_struct s -> alive s u -> enabled s u = true -> inv_struct (disable_var s u).
+Proof.
+  intros s u I Ha He.
+  assert (Hnd := i_nd_el s I u).
+  assert (Hen : forall v, enabled (disable_var s u) v = if Nat.eqb v u then false else enabled s v).
+  { intro v. unfold enabled. rewrite disable_var_var. destruct (Nat.eqb v u); reflexivity. }
+  assert (Hst : forall v, stagedv (disable_var s u) v = if Nat.eqb v u then false else stagedv s v).
+  { intro v. unfold stagedv. rewrite disable_var_var. destruct (Nat.eqb v u); reflexivity. }
+  assert (Hal : forall v, alive (disable_var s u) v <-> alive s v) by (intro; unfold alive; rewrite disable_var_alive; tauto).
+  constructor.
+  - intros c v. rewrite disable_var_cn by assumption. rewrite Hal, Hen, disable_var_on.
+    destruct (lookup c (v_elems (s_var s u))) as [w|] eqn:El.
+    + cbn [cn_disable c_en]. rewrite in_erase, (i_en s I). destruct (Nat.eqb v u) eqn:E.
+      * apply Nat.eqb_eq in E. subst v. split; [tauto|intros [_ [H _]]; discriminate].
+      * apply Nat.eqb_neq in E. tauto.
+    + destruct (Nat.eqb v u) eqn:E; [|apply (i_en s I)].
+      apply Nat.eqb_eq in E. subst v. apply lookup_none in El. rewrite (i_en s I). unfold on. split; [tauto|intros [_ [H _]]; discriminate].
+  - intros c v. rewrite disable_var_cn by assumption. rewrite Hal, Hen, disable_var_on.
+    destruct (lookup c (v_elems (s_var s u))) as [w|] eqn:El.
+    + cbn [cn_disable c_dis]. apply lookup_some_in in El. rewrite in_app_iff, (i_dis s I). cbn [In]. destruct (Nat.eqb v u) eqn:E.
+      * apply Nat.eqb_eq in E. subst v. split; [intros _; repeat split; assumption|intros _; right; now left].
+      * apply Nat.eqb_neq in E. split; [intros [H|[H|[]]]; [exact H|congruence]|intro H; now left].
+    + destruct (Nat.eqb v u) eqn:E; [|apply (i_dis s I)].
+      apply Nat.eqb_eq in E. subst v. apply lookup_none in El. rewrite (i_dis s I). unfold on. rewrite He. split; [intros [_ [H _]]; discriminate|tauto].
+  - intro c. rewrite disable_var_cn by assumption. destruct (lookup c (v_elems (s_var s u))) as [w|] eqn:El; [|apply (i_nd_en s I)].
+    cbn [cn_disable c_en]. apply nodup_erase. apply (i_nd_en s I).
+  - intro c. rewrite disable_var_cn by assumption. destruct (lookup c (v_elems (s_var s u))) as [w|] eqn:El; [|apply (i_nd_dis s I)].
+    cbn [cn_disable c_dis]. apply nodup_snoc; [apply (i_nd_dis s I)|]. rewrite (i_dis s I). rewrite He. intros [_ [H _]]; discriminate.
+  - intro v. rewrite disable_var_elems. apply (i_nd_el s I).
+  - intro c. rewrite disable_var_cn by assumption. rewrite count_en_w.
+    rewrite (count_ext _ (fun v => weight s v c)) by (intros; apply disable_var_weight).
+    destruct (lookup c (v_elems (s_var s u))) as [w|] eqn:El; [|apply (i_cur s I)].
+    assert (Hw : weight s u c = w) by (unfold weight; now rewrite El).
+    cbn [cn_disable c_en c_cur]. rewrite count_erase; [|apply (i_nd_en s I)|].
+    + cbv beta. rewrite Hw, (i_cur s I c), count_en_w. lia.
+    + rewrite (i_en s I). apply lookup_some_in in El. repeat split; assumption.
+  - intro v. rewrite disable_var_var. destruct (Nat.eqb v u); [|apply (i_sign s I)]. cbn. lia.
+  - intro v. rewrite Hst, Hen. destruct (Nat.eqb v u); [discriminate|apply (i_st_pen s I)].
+  - intros v Hv. rewrite Hal in Hv. rewrite disable_var_elems, Hst. destruct (Nat.eqb v u) eqn:E.
+    + apply Nat.eqb_eq in E. subst v. contradiction.
+    + apply (i_dead s I). exact Hv.
+  - intros v Hv. rewrite Hen, Hst. rewrite disable_var_var in Hv. destruct (Nat.eqb v u) eqn:E; [split; reflexivity|].
+    apply (i_want s I). exact Hv.
+Qed.
+
+(** ** what on_disabled_var may change *)
+Record frame (s s' : sys) : Prop := {
+  f_elems : forall v, v_elems (s_var s' v) = v_elems (s_var s v);
+  f_alive : forall v, v_alive (s_var s' v) = v_alive (s_var s v);
+  f_limit : forall c, c_limit (s_cn s' c) = c_limit (s_cn s c);
+  f_unstaged : forall v, stagedv s v = false -> s_var s' v = s_var s v;
+  f_full : forall c, fullc s c -> fullc s' c;
+  f_nv : s_nv s' = s_nv s /\ s_nc s' = s_nc s }.
+Lemma frame_refl : forall s, frame s s.
+Proof. intro s. constructor; auto. Qed.
+Lemma frame_trans : forall s1 s2 s3, frame s1 s2 -> frame s2 s3 -> frame s1 s3.
+Proof.
+  intros s1 s2 s3 A B. constructor.
+  - intro v. rewrite (f_elems _ _ B), (f_elems _ _ A). reflexivity.
+  - intro v. rewrite (f_alive _ _ B), (f_alive _ _ A). reflexivity.
+  - intro c. rewrite (f_limit _ _ B), (f_limit _ _ A). reflexivity.
+  - intros v H. assert (H2 := f_unstaged _ _ A v H). rewrite <- H2. apply (f_unstaged _ _ B). unfold stagedv. rewrite H2. exact H.
+  - intros c H. apply (f_full _ _ B), (f_full _ _ A), H.
+  - destruct (f_nv _ _ A), (f_nv _ _ B). split; congruence.
+Qed.
+Lemma frame_on : forall s s' v c, frame s s' -> (on s' v c <-> on s v c).
+Proof. intros. unfold on. rewrite (f_elems _ _ H). tauto. Qed.
+Lemma frame_alive : forall s s' v, frame s s' -> (alive s' v <-> alive s v).
+Proof. intros. unfold alive. rewrite (f_alive _ _ H). tauto. Qed.
+
+Lemma pend_frame : forall P s s' u, frame s s' -> pend P s u -> pend P s' u.
+Proof.
+  intros P s s' u Fr [c [A [B C]]]. exists c. split; [exact A|]. split; [apply (frame_on _ _ _ _ Fr); exact B|].
+  rewrite (f_limit _ _ Fr). exact C.
+Qed.
+Lemma min_slack_pos : forall s u c, 0 < min_slack s u -> on s u c -> 0 < slack (s_cn s c).
+Proof. intros s u c H Ho. unfold min_slack in H. apply min_slack_aux_pos in H. apply H. exact Ho. Qed.
+Lemma slack_full : forall s c, fullc s c -> slack (s_cn s c) = 0.
+Proof. intros s c [H1 H2]. unfold slack. destruct (c_limit (s_cn s c) <? 0) eqn:E; lia. Qed.
+
+Lemma enable_var_lim : forall s u, inv_struct s -> lim_ok s -> 0 < min_slack s u -> lim_ok (enable_var s u).
+Proof.
+  intros s u I L Hm c. rewrite enable_var_cn by apply (i_nd_el s I).
+  destruct (lookup c (v_elems (s_var s u))) as [w|] eqn:El; [|apply L].
+  cbn [cn_enable c_limit c_cur]. intro Hl. apply lookup_some_in in El.
+  assert (Hs := min_slack_pos s u c Hm El). unfold slack in Hs.
+  destruct (c_limit (s_cn s c) <? 0) eqn:E; [lia|]. destruct (share_01 w); lia.
+Qed.
+Lemma enable_var_frame : forall s u, inv_struct s -> stagedv s u = true -> 0 < min_slack s u -> frame s (enable_var s u).
+Proof.
+  intros s u I Hs Hm. constructor.
+  - apply enable_var_elems.
+  - apply enable_var_alive.
+  - intro c. rewrite enable_var_cn by apply (i_nd_el s I). destruct (lookup c _); reflexivity.
+  - intros v Hv. rewrite enable_var_var. destruct (Nat.eqb v u) eqn:E; [|reflexivity]. apply Nat.eqb_eq in E. subst. congruence.
+  - intros c Hf. unfold fullc. rewrite enable_var_cn by apply (i_nd_el s I).
+    destruct (lookup c (v_elems (s_var s u))) as [w|] eqn:El; [|exact Hf].
+    apply lookup_some_in in El. assert (H1 := min_slack_pos s u c Hm El). rewrite (slack_full s c Hf) in H1. lia.
+  - split; reflexivity.
+Qed.
+
+Lemma not_can_enable_full : forall s u, lim_ok s -> stagedv s u = true -> can_enable s u = false ->
+  exists c, on s u c /\ fullc s c.
+Proof.
+  intros s u L Hs Hc. unfold can_enable in Hc. fold (stagedv s u) in Hc. rewrite Hs in Hc. cbn in Hc.
+  assert (Hm : min_slack s u <= 0) by lia. unfold min_slack in Hm. apply min_slack_aux_nonpos in Hm.
+  destruct Hm as [Hm|[c [Hc1 Hc2]]]; [unfold INT_MAX in Hm; lia|].
+  exists c. split; [exact Hc1|]. unfold slack in Hc2. unfold fullc. specialize (L c).
+  destruct (c_limit (s_cn s c) <? 0) eqn:E; [unfold INT_MAX in Hc2; lia|]. lia.
+Qed.
+
+Lemma odv_loop_ok : forall c P x l s,
+  inv_struct s -> lim_ok s -> 0 <= c_limit (s_cn s c) ->
+  (forall u, In u l -> alive s u) ->
+  (forall u, Some u <> x -> alive s u -> stagedv s u = true ->
+     (exists c', on s u c' /\ fullc s c') \/ pend P s u \/ (on s u c /\ In u l)) ->
+  inv_struct (odv_loop c l s) /\ lim_ok (odv_loop c l s) /\ just P x (odv_loop c l s) /\ frame s (odv_loop c l s).
+Proof.
+  intros c P x. induction l as [|u r IH]; intros s I L Hl Hal HJ.
+  - cbn. refine (conj I (conj L (conj _ (frame_refl s)))).
+    intros u Hx Ha Hs. destruct (HJ u Hx Ha Hs) as [H|[H|[_ []]]]; [now left|now right].
+  - cbn [odv_loop].
+    set (s1 := if can_enable s u then enable_var s u else s).
+    assert (H1 : inv_struct s1 /\ lim_ok s1 /\ frame s s1 /\
+                 (forall u', Some u' <> x -> alive s1 u' -> stagedv s1 u' = true ->
+                    (exists c', on s1 u' c' /\ fullc s1 c') \/ pend P s1 u' \/ (on s1 u' c /\ In u' r))).
+    { subst s1. destruct (can_enable s u) eqn:Ec.
+      - unfold can_enable in Ec. apply andb_prop in Ec. destruct Ec as [Es Em]. fold (stagedv s u) in Es.
+        assert (Hm : 0 < min_slack s u) by lia.
+        assert (Fr := enable_var_frame s u I Es Hm).
+        split; [apply enable_var_struct; auto; apply Hal; now left|].
+        split; [apply enable_var_lim; auto|]. split; [exact Fr|].
+        intros u' Hx Ha Hs. assert (Hne : u' <> u).
+        { intro; subst u'. unfold stagedv in Hs. rewrite enable_var_var, Nat.eqb_refl in Hs. cbn in Hs. discriminate. }
+        assert (Hs0 : stagedv s u' = true).
+        { unfold stagedv in *. rewrite enable_var_var in Hs. apply Nat.eqb_neq in Hne. rewrite Hne in Hs. exact Hs. }
+        rewrite (frame_alive _ _ _ Fr) in Ha.
+        destruct (HJ u' Hx Ha Hs0) as [[c' [A B]]|[A|[A B]]].
+        + left. exists c'. split; [apply (frame_on _ _ _ _ Fr); exact A|apply (f_full _ _ Fr); exact B].
+        + right; left. apply (pend_frame _ _ _ _ Fr). exact A.
+        + right; right. split; [apply (frame_on _ _ _ _ Fr); exact A|]. destruct B as [B|B]; [congruence|exact B].
+      - split; [exact I|]. split; [exact L|]. split; [apply frame_refl|].
+        intros u' Hx Ha Hs. destruct (HJ u' Hx Ha Hs) as [H|[H|[A B]]]; [now left|right; now left|].
+        destruct B as [B|B]; [|right; right; split; assumption].
+        subst u'. left. apply not_can_enable_full; assumption. }
+    destruct H1 as [I1 [L1 [Fr HJ1]]].
+    destruct (c_cur (s_cn s1 c) =? c_limit (s_cn s1 c)) eqn:Efull.
+    + refine (conj I1 (conj L1 (conj _ Fr))).
+      intros u' Hx Ha Hs. destruct (HJ1 u' Hx Ha Hs) as [H|[H|[A B]]]; [now left|now right|].
+      left. exists c. split; [exact A|]. split; [rewrite (f_limit _ _ Fr); exact Hl|lia].
+    + destruct (IH s1 I1 L1) as [A [B [C D]]].
+      * rewrite (f_limit _ _ Fr). exact Hl.
+      * intros u' Hu. apply (frame_alive _ _ _ Fr). apply Hal. now right.
+      * exact HJ1.
+      * refine (conj A (conj B (conj C _))). eapply frame_trans; eassumption.
+Qed.
+
+Lemma on_disabled_var_ok : forall s c P x,
+  inv_struct s -> lim_ok s -> just (c :: P) x s ->
+  inv_struct (on_disabled_var s c) /\ lim_ok (on_disabled_var s c) /\ just P x (on_disabled_var s c) /\ frame s (on_disabled_var s c).
+Proof.
+  intros s c P x I L J. unfold on_disabled_var. destruct (c_limit (s_cn s c) <? 0) eqn:E.
+  - refine (conj I (conj L (conj _ (frame_refl s)))).
+    intros u Hx Ha Hs. destruct (J u Hx Ha Hs) as [H|[c' [[H|H] [H2 H3]]]]; [now left|subst; lia|].
+    right. exists c'. repeat split; assumption.
+  - apply odv_loop_ok; try assumption; [lia| |].
+    + intros u Hu. apply (i_dis s I) in Hu. tauto.
+    + intros u Hx Ha Hs. destruct (J u Hx Ha Hs) as [H|[c' [[H|H] [H2 H3]]]]; [now left| |right; left; exists c'; repeat split; assumption].
+      subst c'. right; right. split; [exact H2|]. apply (i_dis s I). repeat split; try assumption. apply (i_st_pen s I). exact Hs.
+Qed.
+
+Lemma odv_all_ok : forall es s P x,
+  inv_struct s -> lim_ok s -> just (map fst es ++ P) x s ->
+  inv_struct (odv_all s es) /\ lim_ok (odv_all s es) /\ just P x (odv_all s es) /\ frame s (odv_all s es).
+Proof.
+  unfold odv_all. induction es as [|[c w] r IH]; intros s P x I L J.
+  - cbn. refine (conj I (conj L (conj J (frame_refl s)))).
+  - cbn [fold_left fst]. cbn [map fst app] in J.
+    destruct (on_disabled_var_ok s c (map fst r ++ P) x I L J) as [I1 [L1 [J1 F1]]].
+    destruct (IH _ P x I1 L1 J1) as [I2 [L2 [J2 F2]]].
+    refine (conj I2 (conj L2 (conj J2 _))). eapply frame_trans; eassumption.
+Qed.
+
+Lemma min_slack_aux_nonneg : forall cn es m, 0 <= m -> (forall c, In c (map fst es) -> 0 <= slack (cn c)) ->
+  0 <= min_slack_aux cn es m.
+Proof.
+  induction es as [|[c w] r IH]; cbn; intros m Hm H; [exact Hm|].
+  destruct (slack (cn c) <? m); [destruct (slack (cn c) =? 0); [lia|]|]; apply IH; auto; try (apply H; now left).
+Qed.
+Lemma min_slack_nonneg : forall s u, lim_ok s -> 0 <= min_slack s u.
+Proof.
+  intros s u L. apply min_slack_aux_nonneg; [unfold INT_MAX; lia|]. intros c _. unfold slack. specialize (L c).
+  destruct (c_limit (s_cn s c) <? 0) eqn:E; [unfold INT_MAX; lia|lia].
+Qed.
+
+(** ** changing only the penalty fields of one variable (same alive, same elements, same enabledness) *)
+Lemma set_var_struct : forall s v y, inv_struct s ->
+  v_alive y = v_alive (s_var s v) -> v_elems y = v_elems (s_var s v) -> qpos (v_pen y) = enabled s v ->
+  0 <= Qnum (v_pen y) -> 0 <= Qnum (v_staged y) ->
+  (qpos (v_staged y) = true -> qpos (v_pen y) = false) ->
+  (v_alive y = false -> qpos (v_staged y) = false) ->
+  (qpos (v_want y) = false -> qpos (v_pen y) = false /\ qpos (v_staged y) = false) ->
+  inv_struct (set_var s v y).
+Proof.
+  intros s v y I Ha He Hp S1 S2 Hsp Hd Hw.
+  assert (Hal : forall u, alive (set_var s v y) u <-> alive s u).
+  { intro u. unfold alive, set_var. cbn [s_var]. unfold upd. destruct (Nat.eqb u v) eqn:E; [|tauto]. apply Nat.eqb_eq in E. subst. rewrite Ha. tauto. }
+  assert (Hel : forall u, v_elems (s_var (set_var s v y) u) = v_elems (s_var s u)).
+  { intro u. unfold set_var. cbn [s_var]. unfold upd. destruct (Nat.eqb u v) eqn:E; [|reflexivity]. apply Nat.eqb_eq in E. subst. exact He. }
+  assert (Hen : forall u, enabled (set_var s v y) u = enabled s u).
+  { intro u. unfold enabled, set_var. cbn [s_var]. unfold upd. destruct (Nat.eqb u v) eqn:E; [|reflexivity]. apply Nat.eqb_eq in E. subst. exact Hp. }
+  assert (Hon : forall u c, on (set_var s v y) u c <-> on s u c) by (intros; unfold on; rewrite Hel; tauto).
+  constructor.
+  - intros c u. rewrite Hal, Hen, Hon. apply (i_en s I).
+  - intros c u. rewrite Hal, Hen, Hon. apply (i_dis s I).
+  - apply (i_nd_en s I).
+  - apply (i_nd_dis s I).
+  - intro u. rewrite Hel. apply (i_nd_el s I).
+  - intro c. cbn [set_var s_cn]. rewrite (i_cur s I c). rewrite !count_en_w. apply count_ext. intros u _. unfold weight. rewrite Hel. reflexivity.
+  - intro u. unfold set_var. cbn [s_var]. unfold upd. destruct (Nat.eqb u v); [split; assumption|apply (i_sign s I)].
+  - intro u. unfold stagedv, enabled, set_var. cbn [s_var]. unfold upd. destruct (Nat.eqb u v); [exact Hsp|apply (i_st_pen s I)].
+  - intros u Hu. rewrite Hal in Hu. rewrite Hel. split; [apply (i_dead s I); exact Hu|].
+    unfold stagedv, set_var. cbn [s_var]. unfold upd. destruct (Nat.eqb u v) eqn:E; [|apply (i_dead s I); exact Hu].
+    apply Nat.eqb_eq in E. subst. apply Hd. unfold alive in Hu. rewrite Ha. destruct (v_alive (s_var s v)); [contradiction|reflexivity].
+  - intro u. unfold stagedv, enabled, set_var. cbn [s_var]. unfold upd. destruct (Nat.eqb u v); [exact Hw|apply (i_want s I)].
+Qed.
+
+Lemma just_set_var : forall s v y P x, v_alive y = v_alive (s_var s v) -> v_elems y = v_elems (s_var s v) ->
+  just P x s -> (qpos (v_staged y) = true -> stagedv s v = true \/ (exists c, on s v c /\ fullc s c)) ->
+  just P x (set_var s v y).
+Proof.
+  intros s v y P x Ha He J Hs u Hx Hal Hst.
+  assert (Hel : forall u, v_elems (s_var (set_var s v y) u) = v_elems (s_var s u)).
+  { intro u0. unfold set_var. cbn [s_var]. unfold upd. destruct (Nat.eqb u0 v) eqn:E; [|reflexivity]. apply Nat.eqb_eq in E. subst. exact He. }
+  assert (Hon : forall u c, on (set_var s v y) u c <-> on s u c) by (intros; unfold on; rewrite Hel; tauto).
+  assert (Hal0 : alive s u).
+  { revert Hal. unfold alive, set_var. cbn [s_var]. unfold upd. destruct (Nat.eqb u v) eqn:E; [|tauto]. apply Nat.eqb_eq in E. subst. rewrite Ha. tauto. }
+  assert (Hres : (exists c, on s u c /\ fullc s c) \/ pend P s u).
+  { revert Hst. unfold stagedv, set_var. cbn [s_var]. unfold upd. destruct (Nat.eqb u v) eqn:E.
+    - apply Nat.eqb_eq in E. subst u. intro Hq. destruct (Hs Hq) as [H|H]; [apply J; assumption|now left].
+    - intro Hq. apply J; assumption. }
+  destruct Hres as [[c [A B]]|[c [A [B C]]]].
+  - left. exists c. split; [apply Hon; exact A|exact B].
+  - right. exists c. split; [exact A|]. split; [apply Hon; exact B|exact C].
+Qed.
+
+Lemma qpos_Qeq : forall a b, Qeq_bool a b = true -> qpos a = qpos b.
+Proof.
+  intros a b H. apply Qeq_bool_iff in H. unfold Qeq in H. unfold qpos.
+  destruct (0 <? Qnum a) eqn:E1, (0 <? Qnum b) eqn:E2; try reflexivity; nia.
+Qed.
+Lemma qpos_false_zero : forall a b, 0 <= Qnum a -> 0 <= Qnum b -> qpos a = false -> qpos b = false -> Qeq_bool a b = true.
+Proof.
+  intros a b Ha Hb H1 H2. apply Qeq_bool_iff. unfold Qeq. unfold qpos in *.
+  assert (Qnum a = 0) by lia. assert (Qnum b = 0) by lia. rewrite H, H0. reflexivity.
+Qed.
+
+Lemma disable_var_lim : forall s u, inv_struct s -> lim_ok s -> lim_ok (disable_var s u).
+Proof.
+  intros s u I L c. rewrite disable_var_cn by apply (i_nd_el s I).
+  destruct (lookup c (v_elems (s_var s u))) as [w|] eqn:El; [|apply L].
+  cbn [cn_disable c_limit c_cur]. intro Hl. specialize (L c Hl). destruct (share_01 w); lia.
+Qed.
+(* after disable_var, the staged variables that lost their witness use a constraint of the disabled variable *)
+Lemma disable_var_just : forall s u, inv_struct s -> just [] None s ->
+  just (map fst (v_elems (s_var s u)) ++ []) None (disable_var s u).
+Proof.
+  intros s u I J v Hx Ha Hs.
+  assert (Hvu : v <> u).
+  { intro; subst v. unfold stagedv in Hs. rewrite disable_var_var, Nat.eqb_refl in Hs. cbn in Hs. discriminate. }
+  assert (Hs0 : stagedv s v = true).
+  { unfold stagedv in *. rewrite disable_var_var in Hs. apply Nat.eqb_neq in Hvu. rewrite Hvu in Hs. exact Hs. }
+  assert (Ha0 : alive s v) by (unfold alive in *; rewrite disable_var_alive in Ha; exact Ha).
+  destruct (J v Hx Ha0 Hs0) as [[c [A B]]|[c [[] _]]].
+  destruct (lookup c (v_elems (s_var s u))) as [w|] eqn:El.
+  - right. exists c. rewrite app_nil_r. split; [eapply lookup_some_in; eassumption|]. split; [apply disable_var_on; exact A|].
+    rewrite disable_var_cn by apply (i_nd_el s I). rewrite El. cbn. apply B.
+  - left. exists c. split; [apply disable_var_on; exact A|]. unfold fullc. rewrite disable_var_cn by apply (i_nd_el s I). rewrite El. exact B.
+Qed.
+
+Lemma update_penalty_core_inv : forall s v p, inv s -> alive s v -> 0 <= Qnum p ->
+  (qpos p = true -> qpos (v_want (s_var s v)) = true) ->
+  let s' := update_penalty_core true true s v p in
+  inv s' /\ s_nv s' = s_nv s /\ s_nc s' = s_nc s /\
+  (forall u, v_alive (s_var s' u) = v_alive (s_var s u)) /\ (forall u, v_elems (s_var s' u) = v_elems (s_var s u)) /\
+  (qpos p = false -> enabled s' v = false /\ stagedv s' v = false).
+Proof.
+  intros s v p [I [L J]] Ha Hp Hw. unfold update_penalty_core. cbn zeta.
+  destruct (Qeq_bool p (v_pen (s_var s v))) eqn:Eq.
+  { (* same penalty *)
+    assert (Hpp := qpos_Qeq _ _ Eq). cbn [andb]. destruct (qpos p) eqn:Ep; cbn [negb].
+    - split; [split; [exact I|split; assumption]|]. repeat split; intros; try reflexivity; discriminate.
+    - unfold set_staged. set (y := mkVar _ _ _ _ _).
+      split; [split; [|split]|].
+      + apply set_var_struct; try reflexivity; try assumption; cbn; try lia; try (apply (i_sign s I)); try discriminate; auto.
+      + exact L.
+      + apply just_set_var; try reflexivity; try assumption. cbn. discriminate.
+      + repeat split; try reflexivity.
+        * intro u. cbn. unfold upd. destruct (Nat.eqb u v) eqn:E; [apply Nat.eqb_eq in E; subst|]; reflexivity.
+        * intro u. cbn. unfold upd. destruct (Nat.eqb u v) eqn:E; [apply Nat.eqb_eq in E; subst|]; reflexivity.
+        * unfold enabled. cbn. rewrite upd_same. cbn. congruence.
+        * unfold stagedv. cbn. rewrite upd_same. reflexivity. }
+  destruct (qpos p) eqn:Ep; cbn [andb negb].
+  { destruct (qpos (v_pen (s_var s v))) eqn:Een; cbn [negb andb].
+    - (* both positive: change the penalty *)
+      set (y := mkVar _ _ _ _ _).
+      split; [split; [|split]|].
+      + apply set_var_struct; try reflexivity; try assumption; cbn; try (apply (i_sign s I)).
+        * unfold enabled. congruence.
+        * intro Hq. apply (i_st_pen s I) in Hq. unfold enabled in Hq. congruence.
+        * intro Hq. unfold alive in Ha. congruence.
+        * intro Hq. rewrite (Hw eq_refl) in Hq. discriminate.
+      + exact L.
+      + apply just_set_var; try reflexivity; try assumption. cbn. intro Hq. now left.
+      + repeat split; try reflexivity; try discriminate.
+        * intro u. cbn. unfold upd. destruct (Nat.eqb u v) eqn:E; [apply Nat.eqb_eq in E; subst|]; reflexivity.
+        * intro u. cbn. unfold upd. destruct (Nat.eqb u v) eqn:E; [apply Nat.eqb_eq in E; subst|]; reflexivity.
+    - (* enabling *)
+      unfold set_staged. set (y := mkVar _ _ _ _ _). set (s1 := set_var s v y).
+      assert (I1 : inv_struct s1).
+      { apply set_var_struct; try reflexivity; try assumption; cbn; try (apply (i_sign s I)); auto.
+        - intro Hq. unfold alive in Ha. congruence.
+        - intro Hq. rewrite (Hw eq_refl) in Hq. discriminate. }
+      assert (L1 : lim_ok s1) by exact L.
+      assert (Hs1 : stagedv s1 v = true) by (unfold stagedv, s1; cbn; rewrite upd_same; exact Ep).
+      assert (Ha1 : alive s1 v) by (unfold alive, s1; cbn; rewrite upd_same; exact Ha).
+      assert (Hal : forall u, v_alive (s_var s1 u) = v_alive (s_var s u)).
+      { intro u. cbn. unfold upd. destruct (Nat.eqb u v) eqn:E; [apply Nat.eqb_eq in E; subst|]; reflexivity. }
+      assert (Hel : forall u, v_elems (s_var s1 u) = v_elems (s_var s u)).
+      { intro u. cbn. unfold upd. destruct (Nat.eqb u v) eqn:E; [apply Nat.eqb_eq in E; subst|]; reflexivity. }
+      destruct (min_slack s1 v =? 0) eqn:Em.
+      + split; [split; [exact I1|split; [exact L1|]]|].
+        * intros u Hx Hau Hsu. destruct (Nat.eq_dec u v) as [->|Hne].
+          { left. apply not_can_enable_full; try assumption. unfold can_enable. fold (stagedv s1 v). rewrite Hs1. cbn. lia. }
+          { assert (Hsu0 : stagedv s u = true).
+            { revert Hsu. unfold stagedv, s1. cbn. rewrite upd_other by assumption. tauto. }
+            assert (Hau0 : alive s u) by (unfold alive in *; rewrite Hal in Hau; exact Hau).
+            destruct (J u Hx Hau0 Hsu0) as [[c [A B]]|[c [[] _]]]. left. exists c. split; [|exact B].
+            unfold on. rewrite Hel. exact A. }
+        * repeat split; try reflexivity; try assumption; discriminate.
+      + assert (Hm : 0 < min_slack s1 v) by (pose proof (min_slack_nonneg s1 v L1); lia).
+        assert (Fr := enable_var_frame s1 v I1 Hs1 Hm).
+        split; [split; [apply enable_var_struct; assumption|split; [apply enable_var_lim; assumption|]]|].
+        * intros u Hx Hau Hsu. assert (Hne : u <> v).
+          { intro; subst u. unfold stagedv in Hsu. rewrite enable_var_var, Nat.eqb_refl in Hsu. cbn in Hsu. discriminate. }
+          assert (Hsu0 : stagedv s u = true).
+          { revert Hsu. unfold stagedv. rewrite enable_var_var. apply Nat.eqb_neq in Hne. rewrite Hne. unfold s1. cbn.
+            apply Nat.eqb_neq in Hne. rewrite upd_other by assumption. tauto. }
+          assert (Hau0 : alive s u) by (unfold alive in *; rewrite enable_var_alive, Hal in Hau; exact Hau).
+          destruct (J u Hx Hau0 Hsu0) as [[c [A B]]|[c [[] _]]]. left. exists c. split.
+          { apply (frame_on _ _ _ _ Fr). unfold on. rewrite Hel. exact A. }
+          { apply (f_full _ _ Fr). exact B. }
+        * repeat split; try reflexivity; try discriminate.
+          { intro u. rewrite enable_var_alive. apply Hal. }
+          { intro u. rewrite enable_var_elems. apply Hel. } }
+  destruct (qpos (v_pen (s_var s v))) eqn:Een; cbn [negb andb].
+  - (* disabling *)
+    set (s1 := disable_var s v).
+    assert (I1 : inv_struct s1) by (apply disable_var_struct; assumption).
+    assert (L1 : lim_ok s1) by (apply disable_var_lim; assumption).
+    assert (J1 := disable_var_just s v I J). fold s1 in J1.
+    assert (Hel1 : v_elems (s_var s1 v) = v_elems (s_var s v)) by apply disable_var_elems.
+    rewrite Hel1.
+    destruct (odv_all_ok (v_elems (s_var s v)) s1 [] None I1 L1 J1) as [I2 [L2 [J2 F2]]].
+    split; [split; [exact I2|split; assumption]|].
+    assert (Hv1 : stagedv s1 v = false) by (unfold stagedv, s1; rewrite disable_var_var, Nat.eqb_refl; reflexivity).
+    split; [apply (f_nv _ _ F2)|]. split; [apply (f_nv _ _ F2)|].
+    split; [intro u; rewrite (f_alive _ _ F2); apply disable_var_alive|].
+    split; [intro u; rewrite (f_elems _ _ F2); apply disable_var_elems|].
+    intros _. unfold enabled, stagedv. rewrite (f_unstaged _ _ F2 v Hv1). unfold s1. rewrite disable_var_var, Nat.eqb_refl. cbn. split; reflexivity.
+  - (* both non positive and different: impossible *)
+    exfalso. assert (H := qpos_false_zero p (v_pen (s_var s v)) Hp (proj1 (i_sign s I v)) Ep Een). congruence.
+Qed.
+
+(** ** expand *)
+Lemma qnz_qpos : forall q, 0 <= Qnum q -> qnz q = qpos q.
+Proof. unfold qnz, qpos. intros. destruct (Qnum q =? 0) eqn:E, (0 <? Qnum q) eqn:F; cbn; try reflexivity; lia. Qed.
+
+Lemma add_new_struct : forall s c v w, inv_struct s -> alive s v -> lookup c (v_elems (s_var s v)) = None ->
+  inv_struct (add_elem s c v w).
+Proof.
+  intros s c v w I Ha El. unfold add_elem. rewrite El. cbn zeta.
+  rewrite (qnz_qpos _ (proj1 (i_sign s I v))). fold (enabled s v).
+  set (k' := if enabled s v then _ else _). set (x' := mkVar _ _ _ _ _).
+  set (s2 := mkSys _ _ _ _).
+  assert (Hno : ~ on s v c) by (apply lookup_none; exact El).
+  assert (Hv : forall u, s_var s2 u = if Nat.eqb u v then x' else s_var s u) by reflexivity.
+  assert (Hc : forall c', s_cn s2 c' = if Nat.eqb c' c then k' else s_cn s c') by reflexivity.
+  assert (Hal : forall u, alive s2 u <-> alive s u).
+  { intro u. unfold alive. rewrite Hv. destruct (Nat.eqb u v) eqn:E; [apply Nat.eqb_eq in E; subst u|]; cbn; tauto. }
+  assert (Hen : forall u, enabled s2 u = enabled s u).
+  { intro u. unfold enabled. rewrite Hv. destruct (Nat.eqb u v) eqn:E; [apply Nat.eqb_eq in E; subst u|]; reflexivity. }
+  assert (Hst : forall u, stagedv s2 u = stagedv s u).
+  { intro u. unfold stagedv. rewrite Hv. destruct (Nat.eqb u v) eqn:E; [apply Nat.eqb_eq in E; subst u|]; reflexivity. }
+  assert (Hon : forall u c', on s2 u c' <-> on s u c' \/ (u = v /\ c' = c)).
+  { intros u c'. unfold on. rewrite Hv. destruct (Nat.eqb u v) eqn:E.
+    - apply Nat.eqb_eq in E. subst u. cbn [x' v_elems]. rewrite map_app, in_app_iff. cbn. intuition.
+    - apply Nat.eqb_neq in E. intuition. }
+  assert (Hwt : forall u c', ~ (u = v /\ c' = c) -> weight s2 u c' = weight s u c').
+  { intros u c' Hn. unfold weight. rewrite Hv. destruct (Nat.eqb u v) eqn:E; [|reflexivity].
+    apply Nat.eqb_eq in E. subst u. cbn [x' v_elems]. rewrite lookup_app_new.
+    destruct (lookup c' (v_elems (s_var s v))); [reflexivity|]. destruct (Nat.eqb c c') eqn:E2; [|reflexivity].
+    apply Nat.eqb_eq in E2. subst c'. tauto. }
+  assert (Hwv : weight s2 v c = w).
+  { unfold weight. rewrite Hv, Nat.eqb_refl. cbn [x' v_elems]. rewrite lookup_app_new, El, Nat.eqb_refl. reflexivity. }
+  assert (Hvin_en : ~ In v (c_en (s_cn s c))) by (rewrite (i_en s I); tauto).
+  assert (Hvin_dis : ~ In v (c_dis (s_cn s c))) by (rewrite (i_dis s I); tauto).
+  constructor.
+  - intros c' u. rewrite Hc, Hal, Hen, Hon. destruct (Nat.eqb c' c) eqn:E.
+    + apply Nat.eqb_eq in E. subst c'. unfold k'. destruct (enabled s v) eqn:Ev; cbn [c_en].
+      * cbn [In]. rewrite (i_en s I). split; [intros [H|H]; [subst u; tauto|tauto]|].
+        intros [H1 [H2 [H3|[H3 _]]]]; [right; tauto|left; congruence].
+      * rewrite (i_en s I). split; [tauto|]. intros [H1 [H2 [H3|[H3 _]]]]; [tauto|subst u; congruence].
+    + apply Nat.eqb_neq in E. rewrite (i_en s I). tauto.
+  - intros c' u. rewrite Hc, Hal, Hen, Hon. destruct (Nat.eqb c' c) eqn:E.
+    + apply Nat.eqb_eq in E. subst c'. unfold k'. destruct (enabled s v) eqn:Ev; cbn [c_dis].
+      * rewrite (i_dis s I). split; [tauto|]. intros [H1 [H2 [H3|[H3 _]]]]; [tauto|subst u; congruence].
+      * rewrite in_app_iff. cbn [In]. rewrite (i_dis s I). split; [intros [H|[H|[]]]; [tauto|subst u; tauto]|].
+        intros [H1 [H2 [H3|[H3 _]]]]; [left; tauto|right; left; congruence].
+    + apply Nat.eqb_neq in E. rewrite (i_dis s I). tauto.
+  - intro c'. rewrite Hc. destruct (Nat.eqb c' c) eqn:E; [|apply (i_nd_en s I)]. apply Nat.eqb_eq in E. subst c'.
+    unfold k'. destruct (enabled s v); cbn [c_en]; [constructor; [exact Hvin_en|]|]; apply (i_nd_en s I).
+  - intro c'. rewrite Hc. destruct (Nat.eqb c' c) eqn:E; [|apply (i_nd_dis s I)]. apply Nat.eqb_eq in E. subst c'.
+    unfold k'. destruct (enabled s v); cbn [c_dis]; [apply (i_nd_dis s I)|]. apply nodup_snoc; [apply (i_nd_dis s I)|exact Hvin_dis].
+  - intro u. rewrite Hv. destruct (Nat.eqb u v) eqn:E; [|apply (i_nd_el s I)]. cbn [x' v_elems]. rewrite map_app. cbn.
+    apply (nodup_snoc c); [apply (i_nd_el s I)|exact Hno].
+  - intro c'. rewrite Hc, count_en_w. destruct (Nat.eqb c' c) eqn:E.
+    + apply Nat.eqb_eq in E. subst c'. unfold k'. destruct (enabled s v) eqn:Ev; cbn [c_en c_cur].
+      * rewrite count_cons. cbv beta. rewrite Hwv. rewrite (i_cur s I c), count_en_w.
+        rewrite (count_ext (fun v0 => weight s2 v0 c) (fun v0 => weight s v0 c)); [lia|].
+        intros u Hu. apply Hwt. intros [H _]. subst u. contradiction.
+      * rewrite (i_cur s I c), count_en_w. apply count_ext. intros u Hu. symmetry. apply Hwt. intros [H _]. subst u. contradiction.
+    + apply Nat.eqb_neq in E. rewrite (i_cur s I c'), count_en_w. apply count_ext. intros u Hu. symmetry. apply Hwt. tauto.
+  - intro u. rewrite Hv. destruct (Nat.eqb u v) eqn:E; [apply Nat.eqb_eq in E; subst u; cbn|]; apply (i_sign s I).
+  - intro u. rewrite Hst, Hen. apply (i_st_pen s I).
+  - intros u Hu. rewrite Hal in Hu. rewrite Hst, Hv. destruct (Nat.eqb u v) eqn:E; [apply Nat.eqb_eq in E; subst u; contradiction|].
+    apply (i_dead s I). exact Hu.
+  - intros u. rewrite Hst, Hen, Hv. destruct (Nat.eqb u v) eqn:E; [apply Nat.eqb_eq in E; subst u; cbn|]; apply (i_want s I).
+Qed.
+
+Lemma add_reuse_struct : forall s c v w w0, inv_struct s -> alive s v -> lookup c (v_elems (s_var s v)) = Some w0 ->
+  inv_struct (add_elem s c v w).
+Proof.
+  intros s c v w w0 I Ha El. unfold add_elem. rewrite El. cbn zeta.
+  rewrite (qnz_qpos _ (proj1 (i_sign s I v))). fold (enabled s v).
+  set (w' := if c_shared (s_cn s c) then _ else _). set (k' := mkCnst _ _ _ _ _). set (x' := mkVar _ _ _ _ _).
+  set (s2 := mkSys _ _ _ _).
+  assert (Hon0 : on s v c) by (eapply lookup_some_in; eassumption).
+  assert (Hv : forall u, s_var s2 u = if Nat.eqb u v then x' else s_var s u) by reflexivity.
+  assert (Hc : forall c', s_cn s2 c' = if Nat.eqb c' c then k' else s_cn s c') by reflexivity.
+  assert (Hal : forall u, alive s2 u <-> alive s u).
+  { intro u. unfold alive. rewrite Hv. destruct (Nat.eqb u v) eqn:E; [apply Nat.eqb_eq in E; subst u|]; cbn; tauto. }
+  assert (Hen : forall u, enabled s2 u = enabled s u).
+  { intro u. unfold enabled. rewrite Hv. destruct (Nat.eqb u v) eqn:E; [apply Nat.eqb_eq in E; subst u|]; reflexivity. }
+  assert (Hst : forall u, stagedv s2 u = stagedv s u).
+  { intro u. unfold stagedv. rewrite Hv. destruct (Nat.eqb u v) eqn:E; [apply Nat.eqb_eq in E; subst u|]; reflexivity. }
+  assert (Hmf : forall u, map fst (v_elems (s_var s2 u)) = map fst (v_elems (s_var s u))).
+  { intro u. rewrite Hv. destruct (Nat.eqb u v) eqn:E; [|reflexivity]. apply Nat.eqb_eq in E; subst u. cbn [x' v_elems]. apply map_fst_set_w. }
+  assert (Hon : forall u c', on s2 u c' <-> on s u c') by (intros; unfold on; rewrite Hmf; tauto).
+  assert (Hwt : forall u c', ~ (u = v /\ c' = c) -> weight s2 u c' = weight s u c').
+  { intros u c' Hn. unfold weight. rewrite Hv. destruct (Nat.eqb u v) eqn:E; [|reflexivity].
+    apply Nat.eqb_eq in E. subst u. cbn [x' v_elems]. rewrite lookup_set_w by exact Hon0.
+    destruct (Nat.eqb c c') eqn:E2; [|reflexivity]. apply Nat.eqb_eq in E2. subst c'. tauto. }
+  assert (Hwv : weight s2 v c = w').
+  { unfold weight. rewrite Hv, Nat.eqb_refl. cbn [x' v_elems]. rewrite lookup_set_w by exact Hon0. rewrite Nat.eqb_refl. reflexivity. }
+  assert (Hw0 : weight s v c = w0) by (unfold weight; now rewrite El).
+  assert (Hlists : forall c', c_en (s_cn s2 c') = c_en (s_cn s c') /\ c_dis (s_cn s2 c') = c_dis (s_cn s c')).
+  { intro c'. rewrite Hc. destruct (Nat.eqb c' c) eqn:E; [apply Nat.eqb_eq in E; subst c'|]; split; reflexivity. }
+  constructor.
+  - intros c' u. rewrite (proj1 (Hlists c')), Hal, Hen, Hon. apply (i_en s I).
+  - intros c' u. rewrite (proj2 (Hlists c')), Hal, Hen, Hon. apply (i_dis s I).
+  - intro c'. rewrite (proj1 (Hlists c')). apply (i_nd_en s I).
+  - intro c'. rewrite (proj2 (Hlists c')). apply (i_nd_dis s I).
+  - intro u. rewrite Hmf. apply (i_nd_el s I).
+  - intro c'. rewrite (proj1 (Hlists c')), count_en_w. rewrite Hc. destruct (Nat.eqb c' c) eqn:E.
+    + apply Nat.eqb_eq in E. subst c'. cbn [k' c_cur]. destruct (enabled s v) eqn:Ev.
+      * assert (Hin : In v (c_en (s_cn s c))) by (apply (i_en s I); tauto).
+        rewrite (count_upd_one (fun v0 => weight s v0 c) (fun v0 => weight s2 v0 c) v); [|apply (i_nd_en s I)|exact Hin|].
+        -- cbv beta. rewrite Hwv, Hw0, (i_cur s I c), count_en_w. lia.
+        -- intros u Hu. apply Hwt. tauto.
+      * rewrite (i_cur s I c), count_en_w. apply count_ext. intros u Hu. symmetry. apply Hwt. intros [H _]. subst u.
+        apply (i_en s I) in Hu. destruct Hu as [_ [Hu _]]. congruence.
+    + apply Nat.eqb_neq in E. rewrite (i_cur s I c'), count_en_w. apply count_ext. intros u Hu. symmetry. apply Hwt. tauto.
+  - intro u. rewrite Hv. destruct (Nat.eqb u v) eqn:E; [apply Nat.eqb_eq in E; subst u; cbn|]; apply (i_sign s I).
+  - intro u. rewrite Hst, Hen. apply (i_st_pen s I).
+  - intros u Hu. rewrite Hal in Hu. rewrite Hst, Hv. destruct (Nat.eqb u v) eqn:E; [apply Nat.eqb_eq in E; subst u; contradiction|].
+    apply (i_dead s I). exact Hu.
+  - intros u. rewrite Hst, Hen, Hv. destruct (Nat.eqb u v) eqn:E; [apply Nat.eqb_eq in E; subst u; cbn|]; apply (i_want s I).
+Qed.
+
+Lemma share_plus_mono : forall w0 w, 0 <= Qnum w -> share w0 <= share (Qplus w0 w).
+Proof.
+  intros [n0 d0] [n d] H. unfold share. cbn in *.
+  destruct (Z.pos d0 <=? n0) eqn:E1; destruct (Z.pos (d0 * d) <=? n0 * Z.pos d + n * Z.pos d0) eqn:E2; try lia.
+  exfalso. rewrite Pos2Z.inj_mul in E2. nia.
+Qed.
+Lemma share_qmax_mono : forall w0 w, share w0 <= share (qmax w0 w).
+Proof.
+  intros w0 w. unfold qmax. destruct (Qle_bool w w0) eqn:E; [lia|].
+  assert (H : ~ (w <= w0)%Q) by (intro H; apply Qle_bool_iff in H; congruence).
+  apply Qnot_le_lt in H. unfold Qlt in H. destruct w0 as [n0 d0], w as [n d]. unfold share. cbn in *.
+  destruct (Z.pos d0 <=? n0) eqn:E1; destruct (Z.pos d <=? n) eqn:E2; try lia. exfalso. nia.
+Qed.
+Lemma share_0 : share 0 = 0. Proof. reflexivity. Qed.
+
+Lemma add_elem_facts : forall s c v w, inv_struct s -> alive s v -> 0 <= Qnum w ->
+  let s2 := add_elem s c v w in
+  inv_struct s2 /\
+  (forall u, v_alive (s_var s2 u) = v_alive (s_var s u)) /\
+  (forall u, stagedv s2 u = stagedv s u) /\
+  (forall u, enabled s2 u = enabled s u) /\
+  (forall u c', on s2 u c' <-> on s u c' \/ (u = v /\ c' = c)) /\
+  (forall c', c' <> c -> s_cn s2 c' = s_cn s c') /\
+  c_limit (s_cn s2 c) = c_limit (s_cn s c) /\
+  c_cur (s_cn s2 c) = (if enabled s v then c_cur (s_cn s c) - share (weight s v c) + share (weight s2 v c) else c_cur (s_cn s c)) /\
+  share (weight s v c) <= share (weight s2 v c) /\
+  s_nv s2 = s_nv s /\ s_nc s2 = s_nc s /\ v_pen (s_var s2 v) = v_pen (s_var s v) /\ v_want (s_var s2 v) = v_want (s_var s v).
+Proof.
+  intros s c v w I Ha Hw s2.
+  assert (Hq := qnz_qpos _ (proj1 (i_sign s I v))). fold (enabled s v) in Hq.
+  destruct (lookup c (v_elems (s_var s v))) as [w0|] eqn:El.
+  - split; [eapply add_reuse_struct; eassumption|].
+    assert (Hon0 : on s v c) by (eapply lookup_some_in; eassumption).
+    subst s2. unfold add_elem. rewrite El, Hq. cbn zeta.
+    set (w' := if c_shared (s_cn s c) then _ else _).
+    assert (Hw0 : weight s v c = w0) by (unfold weight; now rewrite El).
+    assert (Hmono : share w0 <= share w').
+    { unfold w'. destruct (c_shared (s_cn s c)); [apply share_plus_mono; exact Hw|apply share_qmax_mono]. }
+    assert (Hw2 : forall X Y, weight (mkSys X Y (upd (s_var s) v (mkVar (v_alive (s_var s v)) (v_pen (s_var s v)) (v_staged (s_var s v)) (v_want (s_var s v)) (set_w c w' (v_elems (s_var s v)))))
+                     (upd (s_cn s) c (mkCnst (c_limit (s_cn s c)) (c_shared (s_cn s c)) (if enabled s v then c_cur (s_cn s c) - share w0 + share w' else c_cur (s_cn s c)) (c_en (s_cn s c)) (c_dis (s_cn s c))))) v c = w').
+    { intros. unfold weight. cbn [s_var]. rewrite upd_same. cbn [v_elems]. rewrite lookup_set_w by exact Hon0. now rewrite Nat.eqb_refl. }
+    rewrite Hw2, Hw0.
+    repeat split; cbn [s_var s_cn s_nv s_nc]; try reflexivity; try assumption.
+    + intro u. unfold upd. destruct (Nat.eqb u v) eqn:E; [apply Nat.eqb_eq in E; subst u|]; reflexivity.
+    + intro u. unfold stagedv. cbn [s_var]. unfold upd. destruct (Nat.eqb u v) eqn:E; [apply Nat.eqb_eq in E; subst u|]; reflexivity.
+    + intro u. unfold enabled. cbn [s_var]. unfold upd. destruct (Nat.eqb u v) eqn:E; [apply Nat.eqb_eq in E; subst u|]; reflexivity.
+    + unfold on. cbn [s_var]. unfold upd. destruct (Nat.eqb u v) eqn:E; [|tauto]. apply Nat.eqb_eq in E; subst u. cbn [v_elems]. rewrite map_fst_set_w. tauto.
+    + unfold on. cbn [s_var]. unfold upd. destruct (Nat.eqb u v) eqn:E.
+      * apply Nat.eqb_eq in E; subst u. cbn [v_elems]. rewrite map_fst_set_w. intros [H|[_ H]]; [exact H|subst c'; exact Hon0].
+      * intros [H|[H _]]; [exact H|apply Nat.eqb_neq in E; contradiction].
+    + intros c' Hc. apply upd_other. exact Hc.
+    + rewrite upd_same. reflexivity.
+    + rewrite upd_same. reflexivity.
+    + rewrite upd_same. reflexivity.
+    + rewrite upd_same. reflexivity.
+  - split; [eapply add_new_struct; eassumption|].
+    assert (Hno : ~ on s v c) by (apply lookup_none; exact El).
+    subst s2. unfold add_elem. rewrite El, Hq. cbn zeta.
+    set (k' := if enabled s v then _ else _).
+    assert (Hw0 : weight s v c = 0%Q) by (apply weight_on; exact Hno).
+    assert (Hw2 : forall X Y, weight (mkSys X Y (upd (s_var s) v (mkVar (v_alive (s_var s v)) (v_pen (s_var s v)) (v_staged (s_var s v)) (v_want (s_var s v)) (v_elems (s_var s v) ++ [(c, w)])))
+                     (upd (s_cn s) c k')) v c = w).
+    { intros. unfold weight. cbn [s_var]. rewrite upd_same. cbn [v_elems]. rewrite lookup_app_new, El, Nat.eqb_refl. reflexivity. }
+    rewrite Hw2, Hw0, share_0.
+    repeat split; cbn [s_var s_cn s_nv s_nc]; try reflexivity; try assumption.
+    + intro u. unfold upd. destruct (Nat.eqb u v) eqn:E; [apply Nat.eqb_eq in E; subst u|]; reflexivity.
+    + intro u. unfold stagedv. cbn [s_var]. unfold upd. destruct (Nat.eqb u v) eqn:E; [apply Nat.eqb_eq in E; subst u|]; reflexivity.
+    + intro u. unfold enabled. cbn [s_var]. unfold upd. destruct (Nat.eqb u v) eqn:E; [apply Nat.eqb_eq in E; subst u|]; reflexivity.
+    + unfold on. cbn [s_var]. unfold upd. destruct (Nat.eqb u v) eqn:E; [|tauto]. apply Nat.eqb_eq in E; subst u. cbn [v_elems].
+      rewrite map_app, in_app_iff. cbn. intuition.
+    + unfold on. cbn [s_var]. unfold upd. destruct (Nat.eqb u v) eqn:E.
+      * apply Nat.eqb_eq in E; subst u. cbn [v_elems]. rewrite map_app, in_app_iff. cbn. intuition.
+      * intros [H|[H _]]; [exact H|apply Nat.eqb_neq in E; contradiction].
+    + intros c' Hc. apply upd_other. exact Hc.
+    + rewrite upd_same. unfold k'. destruct (enabled s v); reflexivity.
+    + rewrite upd_same. unfold k'. destruct (enabled s v); cbn; lia.
+    + destruct (share_01 w); lia.
+    + rewrite upd_same. reflexivity.
+    + rewrite upd_same. reflexivity.
+Qed.
+
+Lemma disable_var_just_gen : forall s u P, inv_struct s -> just P None s -> (forall c, on s u c -> In c P) ->
+  just P None (disable_var s u).
+Proof.
+  intros s u P I J HP v Hx Ha Hs.
+  assert (Hvu : v <> u).
+  { intro; subst v. unfold stagedv in Hs. rewrite disable_var_var, Nat.eqb_refl in Hs. cbn in Hs. discriminate. }
+  assert (Hs0 : stagedv s v = true).
+  { unfold stagedv in *. rewrite disable_var_var in Hs. apply Nat.eqb_neq in Hvu. rewrite Hvu in Hs. exact Hs. }
+  assert (Ha0 : alive s v) by (unfold alive in *; rewrite disable_var_alive in Ha; exact Ha).
+  assert (Hlim : forall c, c_limit (s_cn (disable_var s u) c) = c_limit (s_cn s c)).
+  { intro c. rewrite disable_var_cn by apply (i_nd_el s I). destruct (lookup c _); reflexivity. }
+  destruct (J v Hx Ha0 Hs0) as [[c [A B]]|[c [A [B C]]]].
+  - destruct (lookup c (v_elems (s_var s u))) as [w|] eqn:El.
+    + right. exists c. split; [apply HP; eapply lookup_some_in; eassumption|]. split; [apply disable_var_on; exact A|].
+      rewrite Hlim. apply B.
+    + left. exists c. split; [apply disable_var_on; exact A|]. unfold fullc. rewrite disable_var_cn by apply (i_nd_el s I). rewrite El. exact B.
+  - right. exists c. split; [exact A|]. split; [apply disable_var_on; exact B|rewrite Hlim; exact C].
+Qed.
+
+Lemma expand_inv : forall s c v w, inv s -> alive s v -> 0 <= Qnum w ->
+  let s' := expand s c v w in
+  inv s' /\ s_nv s' = s_nv s /\ s_nc s' = s_nc s /\
+  (forall u, v_alive (s_var s' u) = v_alive (s_var s u)) /\
+  (forall u c', on s' u c' <-> on s u c' \/ (u = v /\ c' = c)).
+Proof.
+  intros s c v w [I [L J]] Ha Hw.
+  destruct (add_elem_facts s c v w I Ha Hw) as [I2 [Hal2 [Hst2 [Hen2 [Hon2 [Hcn2 [Hlim2 [Hcur2 [Hmono [Hnv [Hnc [Hpen Hwant]]]]]]]]]]]].
+  unfold expand. cbn zeta. set (s2 := add_elem s c v w) in *.
+  rewrite (qnz_qpos _ (proj1 (i_sign s I v))). fold (enabled s v).
+  assert (Hlimall : forall c', c_limit (s_cn s2 c') = c_limit (s_cn s c')).
+  { intro c'. destruct (Nat.eq_dec c' c) as [->|Hne]; [exact Hlim2|rewrite Hcn2 by exact Hne; reflexivity]. }
+  destruct (enabled s v && (slack (s_cn s2 c) <? 0)) eqn:Eb.
+  - (* the constraint overflows: the variable is disabled and staged *)
+    apply andb_prop in Eb. destruct Eb as [Ev Esl]. rewrite Ev in Hcur2.
+    assert (Hsl : 0 <= c_limit (s_cn s c) /\ c_limit (s_cn s c) < c_cur (s_cn s2 c)).
+    { unfold slack in Esl. rewrite Hlim2 in Esl. destruct (c_limit (s_cn s c) <? 0) eqn:E; [unfold INT_MAX in Esl; lia|lia]. }
+    assert (Hcl := L c (proj1 Hsl)).
+    assert (Hsh : share (weight s v c) = 0 /\ share (weight s2 v c) = 1 /\ c_cur (s_cn s c) = c_limit (s_cn s c)).
+    { destruct (share_01 (weight s v c)), (share_01 (weight s2 v c)); lia. }
+    assert (Ha2 : alive s2 v) by (unfold alive; rewrite Hal2; exact Ha).
+    assert (Hev2 : enabled s2 v = true) by (rewrite Hen2; exact Ev).
+    assert (Hon2v : on s2 v c) by (apply Hon2; right; tauto).
+    set (s3 := disable_var s2 v).
+    assert (I3 : inv_struct s3) by (apply disable_var_struct; assumption).
+    assert (Hcn3 : forall c', s_cn s3 c' = match lookup c' (v_elems (s_var s2 v)) with Some w0 => cn_disable v w0 (s_cn s2 c') | None => s_cn s2 c' end).
+    { intro c'. apply disable_var_cn. apply (i_nd_el s2 I2). }
+    assert (Hfull3 : fullc s3 c).
+    { unfold fullc. rewrite Hcn3. destruct (in_lookup c _ Hon2v) as [w0 Hw0]. rewrite Hw0. cbn [cn_disable c_limit c_cur].
+      assert (weight s2 v c = w0) by (unfold weight; now rewrite Hw0). subst w0. rewrite Hlim2. lia. }
+    assert (L3 : lim_ok s3).
+    { intros c'. rewrite Hcn3. destruct (lookup c' (v_elems (s_var s2 v))) as [w0|] eqn:El.
+      - cbn [cn_disable c_limit c_cur]. rewrite Hlimall. intro Hl0. destruct (Nat.eq_dec c' c) as [->|Hne].
+        + assert (weight s2 v c = w0) by (unfold weight; now rewrite El). subst w0. lia.
+        + rewrite Hcn2 by exact Hne. specialize (L c' Hl0). destruct (share_01 w0); lia.
+      - assert (c' <> c) by (intro; subst c'; apply lookup_none in El; contradiction).
+        rewrite Hcn2 by assumption. apply L. }
+    assert (J2 : just (map fst (v_elems (s_var s2 v))) None s2).
+    { intros u Hx Hau Hsu. rewrite Hst2 in Hsu. unfold alive in Hau. rewrite Hal2 in Hau.
+      destruct (J u Hx Hau Hsu) as [[c' [A B]]|[c' [[] _]]].
+      destruct (Nat.eq_dec c' c) as [->|Hne].
+      - right. exists c. split; [exact Hon2v|]. split; [apply Hon2; now left|rewrite Hlim2; apply B].
+      - left. exists c'. split; [apply Hon2; now left|]. unfold fullc. rewrite Hcn2 by exact Hne. exact B. }
+    assert (J3 : just (map fst (v_elems (s_var s3 v)) ++ []) None s3).
+    { rewrite app_nil_r. unfold s3 at 1. rewrite disable_var_elems. apply disable_var_just_gen; auto. }
+    destruct (odv_all_ok (v_elems (s_var s3 v)) s3 [] None I3 L3 J3) as [I4 [L4 [J4 F4]]].
+    set (s4 := odv_all s3 (v_elems (s_var s3 v))) in *.
+    assert (Hv3 : s_var s3 v = mkVar (v_alive (s_var s2 v)) 0 0 (v_want (s_var s2 v)) (v_elems (s_var s2 v))).
+    { unfold s3. rewrite disable_var_var, Nat.eqb_refl. reflexivity. }
+    assert (Hv4 : s_var s4 v = s_var s3 v) by (apply (f_unstaged _ _ F4); unfold stagedv; rewrite Hv3; reflexivity).
+    unfold set_staged. rewrite Hv4, Hv3. cbn [v_alive v_pen v_want v_elems].
+    set (y := mkVar _ _ _ _ _).
+    assert (Hya : v_alive y = v_alive (s_var s4 v)) by (rewrite Hv4, Hv3; reflexivity).
+    assert (Hye : v_elems y = v_elems (s_var s4 v)) by (rewrite Hv4, Hv3; reflexivity).
+    split; [split; [|split]|].
+    + apply set_var_struct; try assumption.
+      * unfold enabled. rewrite Hv4, Hv3. reflexivity.
+      * cbn. lia.
+      * cbn. apply (i_sign s I v).
+      * reflexivity.
+      * cbn. rewrite Hal2. unfold alive in Ha. congruence.
+      * cbn. rewrite Hwant. intro Hq. apply (i_want s I) in Hq. destruct Hq. congruence.
+    + exact L4.
+    + apply just_set_var; try assumption. intros _. right. exists c. split.
+      * apply (frame_on _ _ _ _ F4). apply disable_var_on. exact Hon2v.
+      * apply (f_full _ _ F4). exact Hfull3.
+    + cbn [set_var s_nv s_nc s_var]. split; [rewrite (proj1 (f_nv _ _ F4)); exact Hnv|]. split; [rewrite (proj2 (f_nv _ _ F4)); exact Hnc|].
+      split.
+      * intro u. unfold upd. destruct (Nat.eqb u v) eqn:E.
+        -- apply Nat.eqb_eq in E. subst u. cbn. apply Hal2.
+        -- rewrite (f_alive _ _ F4). unfold s3. rewrite disable_var_alive. apply Hal2.
+      * intros u c'. rewrite <- Hon2. unfold on. cbn [set_var s_var]. destruct (Nat.eq_dec u v) as [->|Hne].
+        -- rewrite upd_same. unfold y. cbn [v_elems]. tauto.
+        -- rewrite upd_other by exact Hne. rewrite (f_elems _ _ F4). unfold s3. rewrite disable_var_elems. tauto.
+  - (* no overflow *)
+    split; [split; [exact I2|split]|].
+    + intros c' Hl. destruct (Nat.eq_dec c' c) as [->|Hne]; [|rewrite Hcn2 in * by exact Hne; apply L; exact Hl].
+      destruct (enabled s v) eqn:Ev; [|rewrite Hcur2, Hlim2; apply L; rewrite <- Hlim2; exact Hl].
+      cbn [andb] in Eb. unfold slack in Eb. destruct (c_limit (s_cn s2 c) <? 0) eqn:E; lia.
+    + assert (L2 : 0 <= c_limit (s_cn s2 c) -> c_cur (s_cn s2 c) <= c_limit (s_cn s2 c)).
+      { intro Hl. destruct (enabled s v) eqn:Ev; [|rewrite Hcur2, Hlim2; apply L; rewrite <- Hlim2; exact Hl].
+        cbn [andb] in Eb. unfold slack in Eb. destruct (c_limit (s_cn s2 c) <? 0) eqn:E; lia. }
+      intros u Hx Hau Hsu. rewrite Hst2 in Hsu. unfold alive in Hau. rewrite Hal2 in Hau.
+      destruct (J u Hx Hau Hsu) as [[c' [A B]]|[c' [[] _]]]. left. exists c'. split; [apply Hon2; now left|].
+      destruct (Nat.eq_dec c' c) as [->|Hne]; [|unfold fullc; rewrite Hcn2 by exact Hne; exact B].
+      destruct B as [B1 B2]. split; [rewrite Hlim2; exact B1|]. rewrite Hlim2 in *. specialize (L2 B1).
+      destruct (enabled s v); lia.
+    + repeat split; try assumption; apply Hon2.
+Qed.
+
+(** ** var_free *)
+Lemma detach_facts : forall s v c w, inv_struct s -> alive s v -> lookup c (v_elems (s_var s v)) = Some w ->
+  let s' := detach s v c w in
+  inv_struct s' /\
+  (forall u, s_var s' u = if Nat.eqb u v then mkVar (v_alive (s_var s v)) (v_pen (s_var s v)) (v_staged (s_var s v)) (v_want (s_var s v)) (del_key c (v_elems (s_var s v))) else s_var s u) /\
+  (forall c', c' <> c -> s_cn s' c' = s_cn s c') /\
+  c_limit (s_cn s' c) = c_limit (s_cn s c) /\ c_cur (s_cn s' c) <= c_cur (s_cn s c) /\
+  s_nv s' = s_nv s /\ s_nc s' = s_nc s.
+Proof.
+  intros s v c w I Ha El s'.
+  assert (Hv : forall u, s_var s' u = if Nat.eqb u v then mkVar (v_alive (s_var s v)) (v_pen (s_var s v)) (v_staged (s_var s v)) (v_want (s_var s v)) (del_key c (v_elems (s_var s v))) else s_var s u) by reflexivity.
+  assert (Hc : forall c', s_cn s' c' = if Nat.eqb c' c then mkCnst (c_limit (s_cn s c)) (c_shared (s_cn s c)) (if enabled s v then c_cur (s_cn s c) - share w else c_cur (s_cn s c)) (erase v (c_en (s_cn s c))) (erase v (c_dis (s_cn s c))) else s_cn s c') by reflexivity.
+  assert (Hon0 : on s v c) by (eapply lookup_some_in; eassumption).
+  assert (Hal : forall u, alive s' u <-> alive s u).
+  { intro u. unfold alive. rewrite Hv. destruct (Nat.eqb u v) eqn:E; [apply Nat.eqb_eq in E; subst u|]; cbn; tauto. }
+  assert (Hen : forall u, enabled s' u = enabled s u).
+  { intro u. unfold enabled. rewrite Hv. destruct (Nat.eqb u v) eqn:E; [apply Nat.eqb_eq in E; subst u|]; reflexivity. }
+  assert (Hst : forall u, stagedv s' u = stagedv s u).
+  { intro u. unfold stagedv. rewrite Hv. destruct (Nat.eqb u v) eqn:E; [apply Nat.eqb_eq in E; subst u|]; reflexivity. }
+  assert (Hon : forall u c', on s' u c' <-> on s u c' /\ ~ (u = v /\ c' = c)).
+  { intros u c'. unfold on. rewrite Hv. destruct (Nat.eqb u v) eqn:E.
+    - apply Nat.eqb_eq in E. subst u. cbn [v_elems]. rewrite in_del_key. tauto.
+    - apply Nat.eqb_neq in E. tauto. }
+  assert (Hwt : forall u c', ~ (u = v /\ c' = c) -> weight s' u c' = weight s u c').
+  { intros u c' Hn. unfold weight. rewrite Hv. destruct (Nat.eqb u v) eqn:E; [|reflexivity].
+    apply Nat.eqb_eq in E. subst u. cbn [v_elems]. rewrite lookup_del_key.
+    destruct (Nat.eqb c c') eqn:E2; [|reflexivity]. apply Nat.eqb_eq in E2. subst c'. tauto. }
+  assert (Hw0 : weight s v c = w) by (unfold weight; now rewrite El).
+  split; [|split; [exact Hv|split; [|split; [|split; [|split; reflexivity]]]]].
+  - constructor.
+    + intros c' u. rewrite Hc, Hal, Hen, Hon. destruct (Nat.eqb c' c) eqn:E.
+      * apply Nat.eqb_eq in E. subst c'. cbn [c_en]. rewrite in_erase, (i_en s I). tauto.
+      * apply Nat.eqb_neq in E. rewrite (i_en s I). tauto.
+    + intros c' u. rewrite Hc, Hal, Hen, Hon. destruct (Nat.eqb c' c) eqn:E.
+      * apply Nat.eqb_eq in E. subst c'. cbn [c_dis]. rewrite in_erase, (i_dis s I). tauto.
+      * apply Nat.eqb_neq in E. rewrite (i_dis s I). tauto.
+    + intro c'. rewrite Hc. destruct (Nat.eqb c' c); [cbn [c_en]; apply nodup_erase|]; apply (i_nd_en s I).
+    + intro c'. rewrite Hc. destruct (Nat.eqb c' c); [cbn [c_dis]; apply nodup_erase|]; apply (i_nd_dis s I).
+    + intro u. rewrite Hv. destruct (Nat.eqb u v); [cbn [v_elems]; apply nodup_del_key|]; apply (i_nd_el s I).
+    + intro c'. rewrite Hc, count_en_w. destruct (Nat.eqb c' c) eqn:E.
+      * apply Nat.eqb_eq in E. subst c'. cbn [c_en c_cur].
+        rewrite (count_ext (fun v0 => weight s' v0 c) (fun v0 => weight s v0 c)).
+        2:{ intros u Hu. apply Hwt. intros [H _]. subst u. apply in_erase in Hu. tauto. }
+        destruct (enabled s v) eqn:Ev.
+        -- rewrite count_erase; [|apply (i_nd_en s I)|apply (i_en s I); tauto]. cbv beta. rewrite Hw0, (i_cur s I c), count_en_w. lia.
+        -- rewrite erase_notin; [apply (i_cur s I)|]. rewrite (i_en s I). intros [_ [H _]]. congruence.
+      * apply Nat.eqb_neq in E. rewrite (i_cur s I c'), count_en_w. apply count_ext. intros u Hu. symmetry. apply Hwt. tauto.
+    + intro u. rewrite Hv. destruct (Nat.eqb u v) eqn:E; [apply Nat.eqb_eq in E; subst u; cbn|]; apply (i_sign s I).
+    + intro u. rewrite Hst, Hen. apply (i_st_pen s I).
+    + intros u Hu. rewrite Hal in Hu. rewrite Hst, Hv. destruct (Nat.eqb u v) eqn:E; [apply Nat.eqb_eq in E; subst u; contradiction|].
+      apply (i_dead s I). exact Hu.
+    + intros u. rewrite Hst, Hen, Hv. destruct (Nat.eqb u v) eqn:E; [apply Nat.eqb_eq in E; subst u; cbn|]; apply (i_want s I).
+  - intros c' Hne. rewrite Hc. apply Nat.eqb_neq in Hne. rewrite Hne. reflexivity.
+  - rewrite Hc, Nat.eqb_refl. reflexivity.
+  - rewrite Hc, Nat.eqb_refl. cbn [c_cur]. destruct (enabled s v); [destruct (share_01 w)|]; lia.
+Qed.
+
+Lemma del_key_notin : forall c es, ~ In c (map fst es) -> del_key c es = es.
+Proof.
+  induction es as [|[a x] r IH]; cbn; intro H; [reflexivity|]. destruct (Nat.eqb a c) eqn:E.
+  - apply Nat.eqb_eq in E. subst. tauto.
+  - rewrite IH by tauto. reflexivity.
+Qed.
+
+Lemma free_loop_ok : forall es s v,
+  inv_struct s -> lim_ok s -> just (map fst es) (Some v) s -> alive s v -> v_elems (s_var s v) = es ->
+  let s' := fold_left (fun s e => on_disabled_var (detach s v (fst e) (snd e)) (fst e)) es s in
+  inv_struct s' /\ lim_ok s' /\ just [] (Some v) s' /\ v_elems (s_var s' v) = [] /\
+  s_nv s' = s_nv s /\ s_nc s' = s_nc s /\ (forall u, v_alive (s_var s' u) = v_alive (s_var s u)) /\
+  (forall u, u <> v -> v_elems (s_var s' u) = v_elems (s_var s u)).
+Proof.
+  induction es as [|[c w] r IH]; intros s v I L J Ha He.
+  - cbn. refine (conj I (conj L (conj J (conj He _)))). repeat split; auto.
+  - cbn [fold_left fst snd].
+    assert (Hnd : NoDup (map fst ((c, w) :: r))) by (rewrite <- He; apply (i_nd_el s I)).
+    cbn in Hnd. inv Hnd.
+    assert (El : lookup c (v_elems (s_var s v)) = Some w) by (rewrite He; cbn; now rewrite Nat.eqb_refl).
+    destruct (detach_facts s v c w I Ha El) as [I1 [Hv1 [Hcn1 [Hlim1 [Hcur1 [Hnv1 Hnc1]]]]]].
+    set (s1 := detach s v c w) in *.
+    assert (Hel1 : v_elems (s_var s1 v) = r).
+    { rewrite Hv1, Nat.eqb_refl. cbn [v_elems]. rewrite He. cbn. rewrite Nat.eqb_refl. apply del_key_notin. assumption. }
+    assert (Hother : forall u, u <> v -> s_var s1 u = s_var s u).
+    { intros u Hu. rewrite Hv1. apply Nat.eqb_neq in Hu. rewrite Hu. reflexivity. }
+    assert (Hal1 : forall u, v_alive (s_var s1 u) = v_alive (s_var s u)).
+    { intro u. rewrite Hv1. destruct (Nat.eqb u v) eqn:E; [apply Nat.eqb_eq in E; subst u|]; reflexivity. }
+    assert (L1 : lim_ok s1).
+    { intro c'. destruct (Nat.eq_dec c' c) as [->|Hne]; [rewrite Hlim1; intro Hl; specialize (L c Hl); lia|].
+      rewrite Hcn1 by exact Hne. apply L. }
+    assert (J1 : just (c :: map fst r) (Some v) s1).
+    { intros u Hx Hau Hsu. assert (Huv : u <> v) by congruence.
+      unfold alive in Hau. unfold stagedv in Hsu. rewrite Hother in Hau, Hsu by exact Huv.
+      destruct (J u Hx Hau Hsu) as [[c' [A B]]|[c' [A [B C]]]].
+      - destruct (Nat.eq_dec c' c) as [->|Hne].
+        + right. exists c. split; [now left|]. split; [unfold on; rewrite Hother by exact Huv; exact A|]. rewrite Hlim1. apply B.
+        + left. exists c'. split; [unfold on; rewrite Hother by exact Huv; exact A|]. unfold fullc. rewrite Hcn1 by exact Hne. exact B.
+      - right. exists c'. split; [exact A|]. split; [unfold on; rewrite Hother by exact Huv; exact B|].
+        destruct (Nat.eq_dec c' c) as [->|Hne]; [rewrite Hlim1; exact C|rewrite Hcn1 by exact Hne; exact C]. }
+    destruct (on_disabled_var_ok s1 c (map fst r) (Some v) I1 L1 J1) as [I2 [L2 [J2 F2]]].
+    set (s2 := on_disabled_var s1 c) in *.
+    assert (Ha2 : alive s2 v) by (unfold alive; rewrite (f_alive _ _ F2), Hal1; exact Ha).
+    assert (He2 : v_elems (s_var s2 v) = r) by (rewrite (f_elems _ _ F2); exact Hel1).
+    destruct (IH s2 v I2 L2 J2 Ha2 He2) as [I3 [L3 [J3 [E3 [N3 [M3 [A3 O3]]]]]]].
+    refine (conj I3 (conj L3 (conj J3 (conj E3 _)))).
+    split; [rewrite N3, (proj1 (f_nv _ _ F2)); exact Hnv1|]. split; [rewrite M3, (proj2 (f_nv _ _ F2)); exact Hnc1|].
+    split.
+    + intro u. rewrite A3, (f_alive _ _ F2). apply Hal1.
+    + intros u Hu. rewrite O3 by exact Hu. rewrite (f_elems _ _ F2). rewrite Hother by exact Hu. reflexivity.
+Qed.
+
+(** ** replacing a variable without elements (variable_new on a fresh slot, release of a freed variable) *)
+Lemma set_empty_var_struct : forall s v y, inv_struct s -> v_elems (s_var s v) = [] -> v_elems y = [] ->
+  0 <= Qnum (v_pen y) -> 0 <= Qnum (v_staged y) ->
+  (qpos (v_staged y) = true -> qpos (v_pen y) = false) ->
+  (v_alive y = false -> qpos (v_staged y) = false) ->
+  (qpos (v_want y) = false -> qpos (v_pen y) = false /\ qpos (v_staged y) = false) ->
+  inv_struct (set_var s v y).
+Proof.
+  intros s v y I He Hye S1 S2 Hsp Hd Hw.
+  assert (Hv : forall u, s_var (set_var s v y) u = if Nat.eqb u v then y else s_var s u) by reflexivity.
+  assert (Hel : forall u, v_elems (s_var (set_var s v y) u) = v_elems (s_var s u)).
+  { intro u. rewrite Hv. destruct (Nat.eqb u v) eqn:E; [|reflexivity]. apply Nat.eqb_eq in E. subst u. congruence. }
+  assert (Hon : forall u c, on (set_var s v y) u c <-> on s u c) by (intros; unfold on; rewrite Hel; tauto).
+  assert (Hnov : forall c, ~ on s v c) by (intro c; unfold on; rewrite He; cbn; tauto).
+  assert (Hother : forall u, u <> v -> s_var (set_var s v y) u = s_var s u).
+  { intros u Hu. rewrite Hv. apply Nat.eqb_neq in Hu. rewrite Hu. reflexivity. }
+  constructor.
+  - intros c u. rewrite Hon. cbn [set_var s_cn]. destruct (Nat.eq_dec u v) as [->|Hu].
+    + rewrite (i_en s I). split; intros [_ [_ H]]; exfalso; eapply Hnov; eassumption.
+    + unfold alive, enabled. rewrite Hother by exact Hu. apply (i_en s I).
+  - intros c u. rewrite Hon. cbn [set_var s_cn]. destruct (Nat.eq_dec u v) as [->|Hu].
+    + rewrite (i_dis s I). split; intros [_ [_ H]]; exfalso; eapply Hnov; eassumption.
+    + unfold alive, enabled. rewrite Hother by exact Hu. apply (i_dis s I).
+  - apply (i_nd_en s I).
+  - apply (i_nd_dis s I).
+  - intro u. rewrite Hel. apply (i_nd_el s I).
+  - intro c. cbn [set_var s_cn]. rewrite (i_cur s I c). rewrite !count_en_w. apply count_ext. intros u _. unfold weight. rewrite Hel. reflexivity.
+  - intro u. rewrite Hv. destruct (Nat.eqb u v); [split; assumption|apply (i_sign s I)].
+  - intro u. unfold stagedv, enabled. rewrite Hv. destruct (Nat.eqb u v); [exact Hsp|apply (i_st_pen s I)].
+  - intros u Hu. rewrite Hel. destruct (Nat.eq_dec u v) as [->|Hne].
+    + split; [exact He|]. unfold stagedv. rewrite Hv, Nat.eqb_refl. apply Hd. unfold alive in Hu. rewrite Hv, Nat.eqb_refl in Hu.
+      destruct (v_alive y); [exfalso; apply Hu; reflexivity|reflexivity].
+    + unfold alive, stagedv in *. rewrite Hother in * by exact Hne. apply (i_dead s I). exact Hu.
+  - intro u. unfold stagedv, enabled. rewrite Hv. destruct (Nat.eqb u v); [exact Hw|apply (i_want s I)].
+Qed.
+
+Lemma var_free_inv : forall s v, inv s -> alive s v ->
+  let s' := var_free s v in
+  inv s' /\ s_nv s' = s_nv s /\ s_nc s' = s_nc s /\
+  (forall u, u <> v -> v_alive (s_var s' u) = v_alive (s_var s u) /\ v_elems (s_var s' u) = v_elems (s_var s u)) /\
+  s_var s' v = dead_var.
+Proof.
+  intros s v [I [L J]] Ha. unfold var_free. cbn zeta.
+  assert (J0 : just (map fst (v_elems (s_var s v))) (Some v) s).
+  { intros u Hx Hau Hsu. destruct (J u) as [H|[c [[] _]]]; try assumption; [discriminate|now left]. }
+  destruct (free_loop_ok (v_elems (s_var s v)) s v I L J0 Ha eq_refl) as [I1 [L1 [J1 [E1 [N1 [M1 [A1 O1]]]]]]].
+  set (s1 := fold_left _ _ s) in *.
+  split; [split; [|split]|].
+  - apply set_empty_var_struct; try assumption; try reflexivity; cbn; try lia; try discriminate; auto.
+  - exact L1.
+  - intros u Hx Hau Hsu. destruct (Nat.eq_dec u v) as [->|Hne].
+    + unfold alive in Hau. cbn in Hau. rewrite upd_same in Hau. discriminate.
+    + unfold alive, stagedv in Hau, Hsu. cbn [set_var s_var] in Hau, Hsu. rewrite upd_other in Hau, Hsu by exact Hne.
+      destruct (J1 u) as [[c [A B]]|[c [[] _]]]; try assumption; [congruence|].
+      left. exists c. split; [|exact B]. unfold on. cbn [set_var s_var]. rewrite upd_other by exact Hne. exact A.
+  - cbn [set_var s_nv s_nc s_var]. split; [exact N1|]. split; [exact M1|]. split.
+    + intros u Hu. rewrite upd_other by exact Hu. split; [apply A1|apply O1; exact Hu].
+    + apply upd_same.
+Qed.
+
+(** ** identifiers *)
+Definition ids_ok (s : sys) : Prop :=
+  (forall v, (s_nv s <= v)%nat -> ~ alive s v) /\ (forall v c, on s v c -> (c < s_nc s)%nat).
+Definition inv_all (s : sys) : Prop := inv s /\ ids_ok s.
+
+Lemma inv_all_0 : inv_all sys0.
+Proof.
+  split; [split; [|split]|split].
+  - constructor; cbn; intros; try tauto; try constructor; try (split; lia); try (split; reflexivity); try discriminate.
+  - intros c. cbn. lia.
+  - intros u Hx Ha. discriminate.
+  - intros v _ H. discriminate.
+  - intros v c H. destruct H.
+Qed.
+
+Lemma inv_struct_counters : forall a b a' b' f g, inv_struct (mkSys a b f g) -> inv_struct (mkSys a' b' f g).
+Proof. intros a b a' b' f g [H1 H2 H3 H4 H5 H6 H7 H8 H9 H10]. constructor; assumption. Qed.
+
+Lemma step_inv : forall s o, inv_all s -> inv_all (step s o).
+Proof.
+  intros s o [[I [L J]] [Hfresh Hrange]]. destruct o as [lim sh|p|c v w|v p|v|]; unfold step, step_gen.
+  - (* constraint_new *)
+    set (k := mkCnst lim sh 0 [] []).
+    assert (Hen0 : c_en (s_cn s (s_nc s)) = []).
+    { destruct (c_en (s_cn s (s_nc s))) as [|u r] eqn:E; [reflexivity|]. exfalso.
+      assert (H : In u (c_en (s_cn s (s_nc s)))) by (rewrite E; now left). apply (i_en s I) in H. destruct H as [_ [_ H]]. apply Hrange in H. lia. }
+    assert (Hdis0 : c_dis (s_cn s (s_nc s)) = []).
+    { destruct (c_dis (s_cn s (s_nc s))) as [|u r] eqn:E; [reflexivity|]. exfalso.
+      assert (H : In u (c_dis (s_cn s (s_nc s)))) by (rewrite E; now left). apply (i_dis s I) in H. destruct H as [_ [_ H]]. apply Hrange in H. lia. }
+    assert (Hc : forall c, s_cn (mkSys (s_nv s) (S (s_nc s)) (s_var s) (upd (s_cn s) (s_nc s) k)) c = if Nat.eqb c (s_nc s) then k else s_cn s c) by reflexivity.
+    split; [split; [|split]|split].
+    + constructor.
+      * intros c v. rewrite Hc. destruct (Nat.eqb c (s_nc s)) eqn:E; [|apply (i_en s I)]. apply Nat.eqb_eq in E. subst c.
+        cbn [k c_en]. rewrite <- Hen0. apply (i_en s I).
+      * intros c v. rewrite Hc. destruct (Nat.eqb c (s_nc s)) eqn:E; [|apply (i_dis s I)]. apply Nat.eqb_eq in E. subst c.
+        cbn [k c_dis]. rewrite <- Hdis0. apply (i_dis s I).
+      * intro c. rewrite Hc. destruct (Nat.eqb c (s_nc s)); [constructor|apply (i_nd_en s I)].
+      * intro c. rewrite Hc. destruct (Nat.eqb c (s_nc s)); [constructor|apply (i_nd_dis s I)].
+      * apply (i_nd_el s I).
+      * intro c. rewrite Hc. destruct (Nat.eqb c (s_nc s)); [reflexivity|]. rewrite (i_cur s I c). reflexivity.
+      * apply (i_sign s I).
+      * apply (i_st_pen s I).
+      * apply (i_dead s I).
+      * apply (i_want s I).
+    + intro c. rewrite Hc. destruct (Nat.eqb c (s_nc s)); [cbn; lia|apply L].
+    + intros u Hx Hau Hsu. destruct (J u Hx Hau Hsu) as [[c [A B]]|[c [[] _]]]. left. exists c. split; [exact A|].
+      unfold fullc. rewrite Hc. assert (c <> s_nc s) by (apply Hrange in A; lia). apply Nat.eqb_neq in H. rewrite H. exact B.
+    + exact Hfresh.
+    + intros v c H. apply Hrange in H. cbn. lia.
+  - (* variable_new *)
+    destruct (Qnum p <? 0) eqn:Ep; [split; [split; [|split]|split]; assumption|].
+    set (y := mkVar true p 0 p []).
+    assert (He : v_elems (s_var s (s_nv s)) = []) by (apply (i_dead s I); apply Hfresh; lia).
+    split; [split; [|split]|split].
+    + apply (inv_struct_counters (s_nv s) (s_nc s)).
+      apply (set_empty_var_struct s (s_nv s) y); try assumption; try reflexivity; cbn; try lia; try discriminate.
+      intro Hq. split; [exact Hq|reflexivity].
+    + exact L.
+    + intros u Hx Hau Hsu. destruct (Nat.eq_dec u (s_nv s)) as [->|Hne].
+      * unfold stagedv in Hsu. cbn in Hsu. rewrite upd_same in Hsu. discriminate.
+      * unfold alive, stagedv in Hau, Hsu. cbn [s_var] in Hau, Hsu. rewrite upd_other in Hau, Hsu by exact Hne.
+        destruct (J u Hx Hau Hsu) as [[c [A B]]|[c [[] _]]]. left. exists c. split; [|exact B]. unfold on. cbn [s_var]. rewrite upd_other by exact Hne. exact A.
+    + intros v Hv. cbn [s_nv] in Hv. unfold alive. cbn [s_var]. rewrite upd_other by lia. apply Hfresh. lia.
+    + intros v c. unfold on. cbn [s_var s_nc]. destruct (Nat.eq_dec v (s_nv s)) as [->|Hne].
+      * rewrite upd_same. cbn. tauto.
+      * rewrite upd_other by exact Hne. apply Hrange.
+  - (* expand *)
+    destruct (Nat.ltb c (s_nc s) && Nat.ltb v (s_nv s) && v_alive (s_var s v) && negb (Qnum w <? 0)) eqn:G;
+      [|split; [split; [|split]|split]; assumption].
+    apply andb_prop in G. destruct G as [G G4]. apply andb_prop in G. destruct G as [G G3]. apply andb_prop in G. destruct G as [G1 G2].
+    apply Nat.ltb_lt in G1.
+    destruct (expand_inv s c v w (conj I (conj L J)) G3 ltac:(lia)) as [Inv [N [M [A O]]]].
+    split; [exact Inv|split].
+    + intros u Hu. rewrite N in Hu. unfold alive. rewrite A. apply Hfresh. exact Hu.
+    + intros u c' H. rewrite M. apply O in H. destruct H as [H|[_ ->]]; [apply Hrange in H; exact H|exact G1].
+  - (* update_variable_penalty *)
+    destruct (Nat.ltb v (s_nv s) && v_alive (s_var s v) && negb (Qnum p <? 0)) eqn:G;
+      [|split; [split; [|split]|split]; assumption].
+    apply andb_prop in G. destruct G as [G G3]. apply andb_prop in G. destruct G as [G1 G2].
+    assert (Hp : 0 <= Qnum p) by lia.
+    unfold update_penalty. destruct (qpos p) eqn:Eq.
+    + (* want first *)
+      set (s0 := set_want s v p).
+      assert (I0 : inv_struct s0).
+      { apply set_var_struct; try assumption; try reflexivity; cbn; try (apply (i_sign s I)); try (apply (i_st_pen s I)).
+        - intro Hq. apply (i_dead s I). unfold alive. congruence.
+        - intro Hq. congruence. }
+      assert (J0 : just [] None s0) by (apply just_set_var; try reflexivity; try assumption; cbn; intro Hq; now left).
+      assert (Ha0 : alive s0 v) by (unfold alive, s0; cbn; rewrite upd_same; exact G2).
+      assert (Hw0 : qpos p = true -> qpos (v_want (s_var s0 v)) = true) by (intros _; unfold s0; cbn; rewrite upd_same; exact Eq).
+      destruct (update_penalty_core_inv s0 v p (conj I0 (conj L J0)) Ha0 Hp Hw0) as [Inv [N [M [A [E _]]]]].
+      assert (Hal0 : forall u, v_alive (s_var s0 u) = v_alive (s_var s u)).
+      { intro u. unfold s0. cbn. unfold upd. destruct (Nat.eqb u v) eqn:E0; [apply Nat.eqb_eq in E0; subst u|]; reflexivity. }
+      assert (Hel0 : forall u, v_elems (s_var s0 u) = v_elems (s_var s u)).
+      { intro u. unfold s0. cbn. unfold upd. destruct (Nat.eqb u v) eqn:E0; [apply Nat.eqb_eq in E0; subst u|]; reflexivity. }
+      split; [exact Inv|split].
+      * intros u Hu. rewrite N in Hu. unfold alive. rewrite A, Hal0. apply Hfresh. exact Hu.
+      * intros u c. unfold on. rewrite E, Hel0, M. apply Hrange.
+    + destruct (update_penalty_core_inv s v p (conj I (conj L J)) G2 Hp ltac:(congruence)) as [[I1 [L1 J1]] [N [M [A [E Z]]]]].
+      set (s1 := update_penalty_core true true s v p) in *.
+      destruct (Z Eq) as [Z1 Z2].
+      split; [split; [|split]|split].
+      * apply set_var_struct; try assumption; try reflexivity; cbn; try (apply (i_sign s1 I1)); try (apply (i_st_pen s1 I1)).
+        intro Hq. exact Z2.
+      * exact L1.
+      * apply just_set_var; try reflexivity; try assumption. cbn. intro Hq. now left.
+      * intros u Hu. cbn [set_want set_var s_nv] in Hu. rewrite N in Hu. unfold alive. cbn [set_want set_var s_var].
+        unfold upd. destruct (Nat.eqb u v) eqn:E0.
+        -- apply Nat.eqb_eq in E0. subst u. cbn. rewrite A. apply Hfresh. exact Hu.
+        -- rewrite A. apply Hfresh. exact Hu.
+      * intros u c. unfold on. cbn [set_want set_var s_var s_nc]. rewrite M. unfold upd. destruct (Nat.eqb u v) eqn:E0.
+        -- apply Nat.eqb_eq in E0. subst u. cbn. rewrite E. apply Hrange.
+        -- rewrite E. apply Hrange.
+  - (* variable_free *)
+    destruct (Nat.ltb v (s_nv s) && v_alive (s_var s v)) eqn:G; [|split; [split; [|split]|split]; assumption].
+    apply andb_prop in G. destruct G as [G1 G2].
+    destruct (var_free_inv s v (conj I (conj L J)) G2) as [Inv [N [M [O D]]]].
+    split; [exact Inv|split].
+    + intros u Hu. rewrite N in Hu. unfold alive. destruct (Nat.eq_dec u v) as [->|Hne]; [rewrite D; cbn; discriminate|].
+      rewrite (proj1 (O u Hne)). apply Hfresh. exact Hu.
+    + intros u c. unfold on. rewrite M. destruct (Nat.eq_dec u v) as [->|Hne]; [rewrite D; cbn; tauto|].
+      rewrite (proj2 (O u Hne)). apply Hrange.
+  - split; [split; [|split]|split]; assumption.
+Qed.
+
+Theorem run_ops_inv : forall l, inv_all (run_ops sys0 l).
+Proof.
+  intro l. unfold run_ops. generalize inv_all_0. generalize sys0. induction l as [|o l IH]; intros s H; [exact H|].
+  cbn. apply IH. apply step_inv. exact H.
+Qed.
+
+(** * the statements of C18 about every history *)
+Section Statements.
+  Variable l : list op.
+  Let s := run_ops sys0 l.
+
+  Lemma counter_exact : forall c,
+    c_cur (s_cn s c) = count_en s c (c_en (s_cn s c)) /\ NoDup (c_en (s_cn s c)) /\
+    (forall v, In v (c_en (s_cn s c)) <-> v_alive (s_var s v) = true /\ qpos (v_pen (s_var s v)) = true /\ In c (map fst (v_elems (s_var s v)))).
+  Proof. intro c. destruct (run_ops_inv l) as [[I _] _]. split; [apply (i_cur _ I)|split; [apply (i_nd_en _ I)|intro v; apply (i_en _ I)]]. Qed.
+
+  Lemma limit_respected : forall c, 0 <= c_limit (s_cn s c) -> c_cur (s_cn s c) <= c_limit (s_cn s c).
+  Proof. destruct (run_ops_inv l) as [[_ [L _]] _]. exact L. Qed.
+
+  Lemma no_starvation : forall v, v_alive (s_var s v) = true -> qpos (v_staged (s_var s v)) = true ->
+    qpos (v_pen (s_var s v)) = false /\
+    exists c, In c (map fst (v_elems (s_var s v))) /\ 0 <= c_limit (s_cn s c) /\ c_cur (s_cn s c) = c_limit (s_cn s c).
+  Proof.
+    intros v Ha Hs. destruct (run_ops_inv l) as [[I [_ J]] _]. split; [apply (i_st_pen _ I); exact Hs|].
+    destruct (J v ltac:(discriminate) Ha Hs) as [[c [A B]]|[c [[] _]]]. exists c. split; [exact A|exact B].
+  Qed.
+
+  Lemma sets_consistent : forall v c, v_alive (s_var s v) = true -> In c (map fst (v_elems (s_var s v))) ->
+    if qpos (v_pen (s_var s v)) then In v (c_en (s_cn s c)) /\ ~ In v (c_dis (s_cn s c))
+    else In v (c_dis (s_cn s c)) /\ ~ In v (c_en (s_cn s c)).
+  Proof.
+    intros v c Ha Ho. destruct (run_ops_inv l) as [[I _] _]. fold s in I.
+    destruct (qpos (v_pen (s_var s v))) eqn:E; rewrite (i_en _ I), (i_dis _ I); unfold alive, enabled, on; rewrite E; split; try tauto;
+      intros [_ [H _]]; discriminate.
+  Qed.
+
+  Lemma penalty0_not_running : forall v, qpos (v_want (s_var s v)) = false ->
+    qpos (v_pen (s_var s v)) = false /\ qpos (v_staged (s_var s v)) = false.
+  Proof. intros v H. destruct (run_ops_inv l) as [[I _] _]. apply (i_want _ I). exact H. Qed.
+
+  Lemma never_starving : any_starving s = false.
+  Proof.
+    destruct (any_starving s) eqn:E; [|reflexivity]. exfalso. unfold any_starving in E. apply existsb_exists in E.
+    destruct E as [v [_ Hv]]. unfold starving in Hv. apply andb_prop in Hv. destruct Hv as [Hv Hn]. apply andb_prop in Hv. destruct Hv as [Ha Hs].
+    destruct (no_starvation v Ha Hs) as [_ [c [A [B C]]]]. apply negb_true_iff in Hn.
+    assert (X : existsb (fun e => full s (fst e)) (v_elems (s_var s v)) = true).
+    { apply existsb_exists. apply in_map_iff in A. destruct A as [e [A1 A2]]. exists e. split; [exact A2|]. rewrite A1. unfold full. lia. }
+    congruence.
+  Qed.
+End Statements.
+
+(* the code as pinned (update_variable_penalty without on_disabled_var) starves a staged variable *)
+Definition witness_c18 : list op :=
+  [NewC 1 true; NewV 1; NewV 1; Expand 0 0 1; Expand 0 1 1; Pen 0 0].
+Lemma pinned_refuted : any_starving (fold_left step_pinned witness_c18 sys0) = true /\ any_starving (run_ops sys0 witness_c18) = false.
+Proof. split; vm_compute; reflexivity. Qed.
+Definition witness_c15 : list op :=
+  [NewC 1 true; NewV 1; NewV 1; Expand 0 0 1; Expand 0 1 1; Pen 1 0; Free 0].
+Lemma pinned_resumes_suspended :
+  resumed_while_suspended (fold_left step_pinned witness_c15 sys0) 1 = true /\ resumed_while_suspended (run_ops sys0 witness_c15) 1 = false.
+Proof. split; vm_compute; reflexivity. Qed.
